@@ -11,12 +11,39 @@ import (
 
 var readerV3 = regexp.MustCompile(`reader\d? v3[ .]`)
 
+// an "absent" answer for a key the version holds
+var readerAbsent = regexp.MustCompile(`v3\.(Get|GetWithIndex)\([a-z]\) = "" \(nil=true\), version content has "[^"]+" \(present=true\)`)
+var readerHasFalse = regexp.MustCompile(`v3\.Has\([a-z]\) = false`)
+
 func init() {
 	// A reader holding the latest committed version is served through the fast index (Get / Has / Iterator),
 	// which describes whatever version is latest at the moment of the lookup: while the writer commits the next
 	// version the reader sees the new version's data, or a key removed by it as absent.
+	// What the pinned code shows, and nothing else, is accepted: a point lookup of a key that the next version
+	// REMOVED answers "absent" (the index entry is gone and the tree believes it is the latest version), and an
+	// iteration over the index delivers the next version's pairs. A point lookup that returns another VALUE
+	// than the version holds is not this finding (the version stamp of the index entry protects it).
 	rawMatchers["c06_latest_version_reads_through_live_fast_index"] = func(prop, text string) bool {
-		return strings.Contains(text, "fast=true") && readerV3.MatchString(text) && !strings.Contains(text, "error") && !strings.Contains(text, "writer:")
+		if !strings.Contains(text, "fast=true") || !readerV3.MatchString(text) || strings.Contains(text, "error") || strings.Contains(text, "writer:") {
+			return false
+		}
+		body := text
+		if i := strings.Index(text, "]: "); i >= 0 {
+			body = text[i+3:]
+		}
+		for _, clause := range strings.Split(body, "; ") {
+			clause = strings.TrimSpace(clause)
+			if clause == "" {
+				continue
+			}
+			if !readerV3.MatchString(clause) {
+				return false // an epilogue or writer clause: something else is wrong as well
+			}
+			if !(readerAbsent.MatchString(clause) || strings.Contains(clause, "iteration") || readerHasFalse.MatchString(clause)) {
+				return false
+			}
+		}
+		return true
 	}
 	// Node.clone clears the child pointers of a persisted (cached, shared) node while readers of a committed
 	// version follow them.
